@@ -176,6 +176,18 @@ impl Grapheme {
     }
 }
 
+#[cfg(grex_verif)]
+impl Grapheme {
+    pub(crate) fn verif_label(&self) -> crate::verif_hooks::Label {
+        crate::verif_hooks::Label {
+            chars: self.chars.clone(),
+            min: self.min,
+            max: self.max,
+            nested: self.repetitions.iter().map(|it| it.verif_label()).collect(),
+        }
+    }
+}
+
 impl Display for Grapheme {
     fn fmt(&self, f: &mut Formatter<'_>) -> Result {
         let is_single_char = self.char_count(false) == 1
